@@ -18,6 +18,10 @@ CLAIMED = {
          "TLA+ spec Select.tla (Python slice rule, row-list normalisation, column order, access styles, split/reduce): TLC checks the implementation-shaped slice-normalisation and file-cursor mechanisms against it (SelectMC), exports every row/column request and read sequences on one handle; each executed on real SFile/Recfile handles (binary + text) in every access style and every read judged by TLC trace validation (SelectTrace)",
          "Exhaustive over tables of 1..n rows: every slice with bounds in [-n-2, n+2] or None and positive steps, every short row list and permutation, every scalar row, every ordered column subset x {none, split, reduce}, in six access styles on binary and text files, plus behaviours of several reads on one handle (the cursor is state) and seeded sessions on larger tables. TLC decides what each read must return; the real result is projected to (columns, original row indices, form).",
          "The fully-read table is the reference (its faithfulness is C01/C04; fixtures are verified to read back as written). Scalar rows outside [-n, n) are outside the quantifier; negative entries inside a row list and the empty list may be rejected or served as numpy would. Trusted: TLC, unique-token cell identification."),
+ "C03": ("6 / C03",
+         "TLA+ state machine of record files and write handles (RecStore.tla) model-checked with TLC over all bounded operation histories; behaviours (exhaustive short, transition tour, simulated) replayed step by step on real sfile/io and, with seeded random call sequences, judged by the TLC trace spec (RecStoreTrace); implementation-shaped mechanism model (RecStoreMech: SIZE rewrite, cached row counts, compatibility check) checked by invariants and trace inclusion",
+         "Every history of <= 5 (thorough <= 7) calls over 1-2 paths/handles satisfies size = len, append = prefix growth with header/fields kept, overwrite replaces, rejected = unchanged, file = concatenation; each replayed history of the real code is accepted by the spec clause by clause (rows, stored count, header, creation on missing, rejection, bytes unchanged), the file being read back through a fresh reader after each call.",
+         "Not decided: crash points; bytes while a writer is open; readability of write handles (only the correctness of returned tables); mode 'w+'; reader byte order; text value fidelity (C04). Trusted: TLC, token<->row-bytes tables, fresh-reader projection."),
  "C04": ("6 / C04",
          "TLA+ spec TextCodec.tla: character-level writer/scanner of records.cpp as a mechanism checked by TLC against the round-trip obligation (named hazards give signatures; pinned scanf-format scanner as violating variant); TextCodecMC enumerates bounded table families; each written/read with sfile and recfile for six delimiters and both byte orders; results judged by TLC trace validation (TextCodecTrace)",
          "TLC enumerates adjacency-exhaustive layouts (number->string, string->number, string/number last), every string over {space, delimiter, letter, pad} up to width 3 (widths to 12 sampled), every integer type with its extremes, floats on the short-decimal lattice plus NaN/inf/signed zero, sub-arrays; every exported table is written and read back by the real code and the abstraction of what came back must equal what was written, with names, shapes, native order and header _DELIM/_DTYPE.",
